@@ -101,7 +101,9 @@ def _alarm(signum, frame):
 
 
 class _Limit:
-    """Per-case wall-clock limit (SIGALRM, re-armed every 2 s in case the exception is swallowed)."""
+    """Per-case limit on the CPU time of the process (SIGPROF; independent of the machine load, so that a slow machine cannot turn
+    a finishing case into a "hang"), re-armed every 2 s in case the exception is swallowed; plus a wall-clock backstop of 30x the
+    limit against waits that use no CPU."""
 
     def __init__(self, prop):
         self.limit = float(getattr(prop, "CASE_TIMEOUT", 30))
@@ -109,14 +111,17 @@ class _Limit:
     def __enter__(self):
         import signal
         try:
+            signal.signal(signal.SIGPROF, _alarm)
+            signal.setitimer(signal.ITIMER_PROF, self.limit, 2.0)
             signal.signal(signal.SIGALRM, _alarm)
-            signal.setitimer(signal.ITIMER_REAL, self.limit, 2.0)
+            signal.setitimer(signal.ITIMER_REAL, 30.0 * self.limit, 2.0)
         except ValueError:
             pass
 
     def __exit__(self, *a):
         import signal
         try:
+            signal.setitimer(signal.ITIMER_PROF, 0)
             signal.setitimer(signal.ITIMER_REAL, 0)
         except ValueError:
             pass
@@ -180,7 +185,7 @@ def retry_timeouts(prop: Prop, cases: list, impl_side: list):
     prop.CASE_TIMEOUT = max(120.0, 10.0 * float(old))
     out = list(impl_side)
     try:
-        for i in idx[:20]:
+        for i in idx[:200]:
             out[i] = _pool_run(cases[i])
     finally:
         prop.CASE_TIMEOUT = old
